@@ -96,6 +96,9 @@ def _parse(q):
     if m:
         base, args, suffix = m.group(1), split_targs(m.group(2)), m.group(3)
         base = base.replace('std::__cxx11::', 'std::').replace('std::__1::', 'std::')
+        if base in ('shared_ptr', 'unique_ptr', 'weak_ptr', 'vector', 'array', 'pair', 'tuple', 'optional', 'forward_list', 'list', 'set', 'map',
+                    'unordered_set', 'unordered_map', 'basic_string', 'initializer_list', 'function'):
+            base = 'std::' + base          # clang prints template arguments of instantiations without the namespace
         if suffix in ('::iterator', '::const_iterator', '::reverse_iterator'):
             cont = parse(s[:-len(suffix)])
             return T('iter', None, (cont,), ref, const, raw)
